@@ -88,6 +88,14 @@ def source_hashes(names):
     return out
 
 
+def _cvc5_version():
+    try:
+        import cvc5
+        return getattr(cvc5, "__version__", "1.x")
+    except ImportError:
+        return None
+
+
 def load_known(prop):
     """committed known-findings: known_findings.json plus per-property files known_findings.d/<ID>.json"""
     out = {}
@@ -156,7 +164,8 @@ def run_check(harness_name, tier, seed=0, jobs=None, only=None):
                 print("  done %s %s wall=%.1fs paths=%d sat=%d unknown=%d" % (d["case"][0], json.dumps(d["case"][1])[:150], d["wall"], d["paths"], d["sat"], d["unknown"]), flush=True)
 
     agg = {k: 0 for k in ("paths", "aborted", "queries", "decisions", "obligations", "discharged", "sat", "unknown",
-                          "feas_unknown", "validated", "validation_mismatch", "twins", "twins_sat")}
+                          "feas_unknown", "validated", "validation_mismatch", "twins", "twins_sat",
+                          "cvc5_checked", "cvc5_agree", "cvc5_unknown", "cvc5_disagree")}
     solver_time = 0.0
     samples, candidates, case_rows = [], [], []
     for idx in sorted(results):
@@ -246,7 +255,10 @@ def run_check(harness_name, tier, seed=0, jobs=None, only=None):
             "decisions": agg["decisions"],
             "reachability_twins": {"checked": agg["twins"], "sat": agg["twins_sat"]},
             "solver_time_s": round(solver_time, 2),
-            "solver_versions": {"z3": z3.get_version_string()},
+            "solver_versions": {"z3": z3.get_version_string(), "cvc5": _cvc5_version()},
+            "second_solver_crosscheck": {"obligations_rechecked_with_cvc5": agg["cvc5_checked"], "agree_unsat": agg["cvc5_agree"],
+                                         "cvc5_unknown_or_timeout": agg["cvc5_unknown"], "disagree": agg["cvc5_disagree"],
+                                         "policy": "every 499th (quick) / 97th (thorough) discharged obligation of each case is re-decided by cvc5 1.4 (SYMX_CVC5=<n> overrides); a cvc5 'sat' against a z3 'unsat' is a harness error"},
             "functions_encoded": source_hashes(getattr(h, "FUNCTIONS", [])),
             "bounds": getattr(h, "BOUNDS", {}).get(tier, "") + ((" || " + h.BOUNDS["merged"]) if "merged" in getattr(h, "BOUNDS", {}) else ""),
             "outside_bounds": getattr(h, "OUTSIDE", []),
